@@ -29,7 +29,7 @@ from collections import Counter
 from concurrent.futures import ThreadPoolExecutor
 from typing import Any
 
-from mc import c06_gen, corpus
+from mc import c06_fam, c06_gen, corpus
 from mc.common import Ctx, Result, Violation, scratch, seeded_order
 from mc.kernel import ExecError, pmap, run_isolated
 
@@ -106,6 +106,16 @@ def _compile_and_check(job: dict) -> dict:
             rec["ir"] = "\n".join(format_func(fn))[:6000]
         funcs.append(rec)
 
+    cfg = {"functions": 0, "functions_with_handlers": 0, "blocks": 0, "blocks_with_handler": 0, "missing": []}
+
+    def cfg_obs(fn: Any, missing: list, nblocks: int, nhandled: int) -> None:
+        cfg["functions"] += 1
+        cfg["functions_with_handlers"] += bool(nhandled)
+        cfg["blocks"] += nblocks
+        cfg["blocks_with_handler"] += nhandled
+        for m in missing:
+            cfg["missing"].append(dict(m, fn=fn.name, cls=fn.class_name))
+
     patch = job.get("patch")
     if patch:
         import mypy.build  # noqa: F401  (import order: mypy first, as every real entry point does)
@@ -113,8 +123,8 @@ def _compile_and_check(job: dict) -> dict:
 
         exec(compile(open(patch).read(), patch, "exec"), {})
     root = scratch("c06", f"w{os.getpid()}")
-    st = c06_ir.compile_program(job["kind"], root, job["case"], job["main"], job["files"], obs)
-    return {"status": st, "functions": funcs}
+    st = c06_ir.compile_program(job["kind"], root, job["case"], job["main"], job["files"], obs, cfg_obs)
+    return {"status": st, "functions": funcs, "cfg": cfg}
 
 
 def run_batch(batch: list[dict]) -> list[dict]:
@@ -125,7 +135,7 @@ def run_batch(batch: list[dict]) -> list[dict]:
             r = run_isolated(_compile_and_check, job, timeout=job.get("timeout", 900))
             r["error"] = None
         except ExecError as e:
-            r = {"status": {"status": "harness_" + e.kind}, "functions": [], "error": e.info[-1500:]}
+            r = {"status": {"status": "harness_" + e.kind}, "functions": [], "cfg": {}, "error": e.info[-1500:]}
         r["file"], r["case"], r["seconds"] = job["file"], job["case"], round(time.time() - t0, 2)
         out.append(r)
     return out
@@ -191,14 +201,26 @@ def _driver_env() -> dict[str, str]:
 
 
 def _run_driver(job: dict, tag: str, timeout: float) -> dict:
-    """Run the driver; on a signal exit record the measurement in flight and continue without it."""
+    """Run the driver; on a signal exit record the measurement in flight and continue after it (finished
+    measurements are kept: the driver appends each one to its out file)."""
     d = job["build_dir"]
-    results: list[dict] = []
     crashes: list[dict] = []
     herr: list[str] = []
     skip: list = []
-    for attempt in range(12):
-        j = dict(job, skip=skip, progress=os.path.join(d, f"{tag}.progress"), out=os.path.join(d, f"{tag}.out{attempt}"))
+    outp = os.path.join(d, f"{tag}.out")
+
+    def finished() -> list[dict]:
+        try:
+            with open(outp) as f:
+                return [json.loads(line) for line in f if line.strip()]
+        except OSError:
+            return []
+
+    def key_of(m: dict) -> list:
+        return [m["name"], m["k"]] if "k" in m else [m["name"], m["input"]]
+
+    for attempt in range(400):
+        j = dict(job, skip=skip + [key_of(m) for m in finished()], progress=os.path.join(d, f"{tag}.progress"), out=outp)
         jf = os.path.join(d, f"{tag}.job{attempt}")
         with open(jf, "w") as f:
             json.dump(j, f)
@@ -209,9 +231,7 @@ def _run_driver(job: dict, tag: str, timeout: float) -> dict:
         except subprocess.TimeoutExpired:
             herr.append(f"driver {tag} timeout after {timeout}s")
             break
-        if rc == 0 and os.path.exists(j["out"]):
-            with open(j["out"]) as f:
-                results = json.load(f)
+        if rc == 0 and os.path.exists(outp + ".done"):
             break
         if rc < 0:
             try:
@@ -220,16 +240,26 @@ def _run_driver(job: dict, tag: str, timeout: float) -> dict:
             except (OSError, ValueError):
                 herr.append(f"driver {tag} died with signal {-rc} before any measurement: {out[-500:]}")
                 break
+            if where in skip:
+                herr.append(f"driver {tag} died with signal {-rc} outside a measurement (after {where}): {out[-500:]}")
+                break
             crashes.append({"where": where, "signal": -rc, "stderr": out[-1500:]})
             skip.append(where)
             continue
         herr.append(f"driver {tag} failed rc={rc}: {out[-1500:]}")
         break
-    return {"results": results, "crashes": crashes, "harness_errors": herr}
+    else:
+        herr.append(f"driver {tag}: more than 400 signal exits, remaining measurements not taken")
+    return {"results": finished(), "crashes": crashes, "harness_errors": herr}
+
+
+DRIVER_LANE = {"conformance": "conformance", "ms": "conformance", "undef": "undef", "nr": "undef"}
 
 
 def dynamic_lane(work: str, lane: str, mod: str, source: str, specs: list[dict], split: int, patch: str | None,
                  calls: int | None = None, opt: str = "0") -> dict:
+    """lane = family: conformance | ms (multi-steal; conformance driver + result census) | undef | nr (nested
+    protected regions; undef driver with explicit inputs)."""
     from mc.c06_build import build
 
     d = os.path.join(work, f"{mod}-O{opt}")
@@ -237,14 +267,16 @@ def dynamic_lane(work: str, lane: str, mod: str, source: str, specs: list[dict],
     b = build({"dir": d, "mod": mod, "source": source, "opt": opt, "patch": patch,
                "extra_files": {"c06trk.py": c06_gen.TRACK_MODULE, mod + "_ref.py": source}})
     out: dict = {"lane": lane, "mod": mod, "opt": opt, "build_ok": b["ok"], "build_seconds": b["seconds"], "lib_rt": b["lib_rt"],
-                 "static": b["static"], "results": [], "crashes": [], "harness_errors": []}
+                 "static": b["static"], "cfg": b.get("cfg") or {}, "specs": specs, "results": [], "crashes": [],
+                 "harness_errors": []}
     if not b["ok"]:
         out["harness_errors"].append(f"mypyc build of {mod} failed rc={b['rc']}: {b['log'][-2500:]}")
+        shutil.rmtree(d, ignore_errors=True)
         return out
     chunks = [specs[i::split] for i in range(split)] if split > 1 else [specs]
     jobs = []
     for i, ch in enumerate(chunks):
-        j = {"lane": lane, "modname": mod, "refname": mod + "_ref", "specs": ch, "build_dir": d}
+        j = {"lane": DRIVER_LANE[lane], "modname": mod, "refname": mod + "_ref", "specs": ch, "build_dir": d}
         if calls:
             j["calls"] = calls
         jobs.append((j, f"drv{i}"))
@@ -254,6 +286,7 @@ def dynamic_lane(work: str, lane: str, mod: str, source: str, specs: list[dict],
             out["crashes"] += r["crashes"]
             out["harness_errors"] += r["harness_errors"]
     out["seconds"] = round(time.time() - t0, 1)
+    shutil.rmtree(d, ignore_errors=True)  # build trees are removed as soon as they were measured
     return out
 
 
@@ -356,14 +389,141 @@ def undef_verdicts(dyn: dict) -> tuple[list[Violation], list[str], Counter, list
     return viol, herr, st, samples
 
 
+def _okind(o: str) -> str:
+    return o.split(":")[0] + (":" + o.split(":")[1] if o.startswith("exc") else "")
+
+
+def ms_verdicts(dyn: dict) -> tuple[list[Violation], list[str], Counter, list[dict]]:
+    """Multi-steal family: conformance measurements + census of the references the RESULT holds (vs CPython)."""
+    viol: list[Violation] = []
+    herr: list[str] = []
+    st = Counter()
+    samples: list[dict] = []
+    spec = {sp["name"]: sp for sp in dyn["specs"]}
+    alarmed = {f["fn"] for f in dyn["static"] if f["violations"] and f["cls"] is None}
+    for m in dyn["results"]:
+        rf, cm = m["ref"], m["compiled"]
+        sp = spec[m["name"]]
+        st["measurements"] += 1
+        if rf["deltas"] or rf["live_delta"] or not rf["restored"] or not rf["stable"]:
+            herr.append(f"multi-steal function {m['name']} k={m['k']} is not net neutral under CPython itself: {rf}")
+            continue
+        predicted_clean = m["name"] not in alarmed
+        st["traces_validated"] += 1
+        st["predicted_balanced" if predicted_clean else "predicted_violation"] += 1
+        st["outcome:" + _okind(cm["outcome"])] += 1
+        problems = []
+        if cm["deltas"]:
+            sign = "leak" if all(v > 0 for v in cm["deltas"].values()) else "over-release"
+            problems.append((f"refcount-delta|{sign}", f"deltas after 64 calls {cm['deltas']}"))
+        if cm["live_delta"]:
+            problems.append(("live-instances", f"{cm['live_delta']:+d} live tracked instances after 64 calls"))
+        if not cm["restored"]:
+            problems.append(("state-not-restored", "containers/attributes differ after the call"))
+        if cm["outcome"] != rf["outcome"]:
+            problems.append(("outcome", f"compiled {cm['outcome']} vs CPython {rf['outcome']}"))
+        if not cm["stable"]:
+            problems.append(("unstable", "outcome changed between repeated calls"))
+        if isinstance(rf["census"], list) and isinstance(cm["census"], list):
+            st["census_compared"] += 1
+            st["census_objects"] += len(rf["census"])
+            if len(samples) < 1 and len(rf["census"]) >= 2 and rf["census"] == cm["census"] and sp["shape"].count("x") > 1:
+                samples.append({"function": m["name"], "k": m["k"], "outcome": cm["outcome"],
+                                "references_held_by_result(label,refcount)": cm["census"], "cpython": rf["census"]})
+            if rf["census"] != cm["census"]:
+                a, b = dict(map(tuple, rf["census"])), dict(map(tuple, cm["census"]))
+                fewer = any(b.get(kk, 0) < v for kk, v in a.items())
+                problems.append((f"result-references|{'fewer' if fewer else 'more'}",
+                                 f"references held while the result is alive: compiled {cm['census']} vs CPython {rf['census']}"))
+        for kind, txt in problems:
+            viol.append(Violation(
+                f"dynamic|multi-steal|{kind}|{sp['construct']}|x:{sp['prov']}",
+                f"{m['name']}(k={m['k']}): {txt}; static model predicted "
+                f"{'balanced (prediction refuted)' if predicted_clean else 'a violation in this function (prediction confirmed)'}",
+                {"lane": "ms", "name": m["name"], "k": m["k"], "spec": sp, "measurement": m}))
+    for c in dyn["crashes"]:
+        name, k = c["where"]
+        sp = spec.get(name, {"construct": "?", "prov": "?"})
+        viol.append(Violation(f"dynamic|multi-steal|crash|{sp['construct']}|x:{sp['prov']}",
+                              f"{name}(k={k}): process died with signal {c['signal']}",
+                              {"lane": "ms", "name": name, "k": k, "spec": sp, "crash": c}))
+    return viol, herr, st, samples
+
+
+def nr_verdicts(dyn: dict) -> tuple[list[Violation], list[str], Counter, list[dict]]:
+    """Nested protected regions: outcome (value / UnboundLocalError / propagated Err) vs CPython, refcounts, crashes."""
+    viol: list[Violation] = []
+    herr: list[str] = []
+    st = Counter()
+    samples: list[dict] = []
+    spec = {sp["name"]: sp for sp in dyn["specs"]}
+    for m in dyn["results"]:
+        rf, cm = m["ref"], m["compiled"]
+        sp = spec[m["name"]]
+        st["measurements"] += 1
+        st["traces_validated"] += 1
+        ro, co = rf["outcome"], cm["outcome"]
+        st["ref:" + _okind(ro)] += 1
+        if ro == "exc:UnboundLocalError":
+            st["undefined_read_cases"] += 1
+            st[f"undefined_read_cases_outer:{sp['outer']}"] += 1
+        if rf["delta_a"] or rf["live_delta"]:
+            herr.append(f"nested-region function {m['name']} {m['input']} not neutral under CPython: {rf}")
+            continue
+        if len(samples) < 1 and ro == "exc:UnboundLocalError" and ro == co and sp["outer"] != "none" and sp["where"] == "F":
+            samples.append({"function": m["name"], "input(raise point)": m["input"], "cpython": ro, "compiled": co})
+        if ro != co:
+            viol.append(Violation(
+                f"dynamic|nested-undef|{sp['typ']}|assigned:{sp['where']}|read:{sp['read']}|{_okind(ro)}->{_okind(co)}",
+                f"{m['name']}(p={m['input'][0]}) [outer {sp['outer']}, inner {sp['inner']}]: CPython {ro}, compiled {co}",
+                {"lane": "nr", "name": m["name"], "input": m["input"], "spec": sp, "measurement": m}))
+        if cm["delta_a"] or cm["delta_v"] or cm["live_delta"]:
+            viol.append(Violation(
+                f"dynamic|nested-undef|refcount-delta|{sp['typ']}|outer:{sp['outer']}|inner:{sp['inner']}",
+                f"{m['name']}(p={m['input'][0]}): refcount deltas a={cm['delta_a']} v={cm['delta_v']} live={cm['live_delta']}",
+                {"lane": "nr", "name": m["name"], "input": m["input"], "spec": sp, "measurement": m}))
+    for c in dyn["crashes"]:
+        name, inp = c["where"]
+        sp = spec.get(name, {"typ": "?", "where": "?", "read": "?", "outer": "?", "inner": "?"})
+        viol.append(Violation(f"dynamic|nested-undef|crash|{sp['typ']}|assigned:{sp['where']}|read:{sp['read']}",
+                              f"{name}(p={inp[0]}) [outer {sp['outer']}, inner {sp['inner']}]: process died with signal "
+                              f"{c['signal']}",
+                              {"lane": "nr", "name": name, "input": inp, "spec": sp, "crash": c}))
+    return viol, herr, st, samples
+
+
+def cfg_violations(where: str, cfg: dict) -> list[Violation]:
+    out = []
+    for m in cfg.get("missing", []):
+        sig = f"static|cfg|{m['kind']}" + (f"|from-protected-block:{m['own_handler']}" if "own_handler" in m else "")
+        out.append(Violation(sig, f"{where} {m.get('cls') or ''}.{m['fn']}: CFG given to the must-defined analysis lacks the "
+                                  f"{m['kind']} from block {m['block']} to {m['to']}"
+                                  + (f" (handler of its successor {m['via']})" if "via" in m else ""),
+                             {"lane": "cfg", "where": where, "missing": m, "fn": m["fn"], "cls": m.get("cls")}))
+    return out
+
+
+MS_MODULES_Q, NR_MODULES_Q = 6, 6
+MS_MODULES_T, NR_MODULES_T = 24, 8
+
+
 def start_dynamic(ctx: Ctx, work: str, patch: str | None = None) -> list:
-    """Launch the dynamic lanes on threads (they spend their time in subprocesses)."""
-    ex = ThreadPoolExecutor(max_workers=6)
-    futs = [("conformance", ex.submit(dynamic_lane, work, "conformance", "c06conf", c06_gen.conformance_source(),
-                                      c06_gen.conformance_specs(), 1, patch))]
+    """Launch the dynamic lanes on threads (they spend their time in subprocesses).  Largest modules first."""
+    ex = ThreadPoolExecutor(max_workers=16)
+    futs = []
+    for mod, src, specs in c06_fam.ms_modules(ctx.thorough, MS_MODULES_T if ctx.thorough else MS_MODULES_Q):
+        futs.append((f"multi-steal-{mod}", ex.submit(dynamic_lane, work, "ms", mod, src, specs, 1, patch)))
+    for mod, src, specs in c06_fam.nr_modules(["obj", "int", "i64"], ctx.thorough, NR_MODULES_T if ctx.thorough else NR_MODULES_Q):
+        futs.append((f"nested-regions-{mod}", ex.submit(dynamic_lane, work, "nr", mod, src, specs, 1, patch)))
+    futs.append(("conformance", ex.submit(dynamic_lane, work, "conformance", "c06conf", c06_gen.conformance_source(),
+                                          c06_gen.conformance_specs(), 1, patch)))
     if ctx.thorough:
         futs.append(("conformance-O3", ex.submit(dynamic_lane, work, "conformance", "c06conf", c06_gen.conformance_source(),
                                                  c06_gen.conformance_specs(), 1, patch, None, "3")))
+        for mod, src, specs in c06_fam.ms_modules(False, 2):
+            futs.append((f"multi-steal-O3-{mod}", ex.submit(dynamic_lane, work, "ms", mod, src, specs, 1, patch, None, "3")))
+        for mod, src, specs in c06_fam.nr_modules(["obj", "int", "i64"], False, 2):
+            futs.append((f"nested-regions-O3-{mod}", ex.submit(dynamic_lane, work, "nr", mod, src, specs, 1, patch, None, "3")))
     types = ["obj", "int", "i64"]
     for t in types:
         futs.append((f"undef-{t}", ex.submit(dynamic_lane, work, "undef", f"c06und_{t}",
@@ -401,6 +561,7 @@ def run(ctx: Ctx, only_files: list[str] | None = None, patch: str | None = None,
     biggest = {"states": 0}
     malformed: list[str] = []
     not_compiled: list[str] = []
+    cfgtot = Counter()
     for _i, batch, st, val in pmap(run_batch, batches, fresh=False, timeout=7200):
         if st != "ok":
             herr.append(f"batch failed: {val}")
@@ -445,6 +606,9 @@ def run(ctx: Ctx, only_files: list[str] | None = None, patch: str | None = None,
                 if f["violations"]:
                     tot["functions_with_alarm_" + f["stage"]] += 1
             vs = static_violations(r["file"], r["case"], r["functions"])
+            vs += cfg_violations(f"{r['file']}::{r['case']}", r.get("cfg") or {})
+            for k in ("functions", "functions_with_handlers", "blocks", "blocks_with_handler"):
+                cfgtot[k] += (r.get("cfg") or {}).get(k, 0)
             violations += vs
             if len(samples) < 2 and r["functions"] and not vs:
                 f = max(r["functions"], key=lambda f: f["states"])
@@ -452,12 +616,15 @@ def run(ctx: Ctx, only_files: list[str] | None = None, patch: str | None = None,
                                 "abstract_states": f["states"], "transitions": f["transitions"], "path_ends": f["ends"],
                                 "inc_refs": f["n_increfs"], "dec_refs": f["n_decrefs"], "verdict": "balanced on every path"})
     # canonical (simplest-first) order of violations: by file, case
-    violations.sort(key=lambda v: (v.signature, len(v.detail.get("ir") or "") or 10 ** 9, v.detail["file"], v.detail["case"]))
+    violations.sort(key=lambda v: (v.signature, len(v.detail.get("ir") or "") or 10 ** 9, v.detail.get("file", ""),
+                                   v.detail.get("case", "")))
 
     # ---- dynamic lanes
     dyn_cov: dict[str, Any] = {}
     traces = 0
     dyn_static_viol = 0
+    fam = Counter()
+    steal_kinds = Counter()
     for name, fut in futs:
         dyn = fut.result()
         herr += dyn["harness_errors"]
@@ -466,18 +633,40 @@ def run(ctx: Ctx, only_files: list[str] | None = None, patch: str | None = None,
             tot["gen_functions_" + f["stage"]] += 1
             tot["states"] += f["states"]
             tot["transitions"] += f["transitions"]
+            if f["capped"]:
+                tot["capped_functions"] += 1
+            if f["stage"] == "refcount":
+                fam[dyn["lane"] + "_functions"] += 1
+                fam[dyn["lane"] + "_states_x2"] += f["states"]
+                fam[dyn["lane"] + "_transitions_x2"] += f["transitions"]
+                fam[dyn["lane"] + "_ops_stealing_one_value_more_than_once"] += f.get("multi_steal_ops", 0)
+                if dyn["lane"] == "ms":
+                    steal_kinds.update(f.get("steal_kinds") or {})
+            else:
+                fam[dyn["lane"] + "_states_x2"] += f["states"]
+                fam[dyn["lane"] + "_transitions_x2"] += f["transitions"]
         by_stage = [dict(f, module=dyn["mod"], blocks=0) for f in dyn["static"]]
         sv = static_violations("generated:" + dyn["mod"], dyn["lane"], by_stage, lane="generated")
+        sv += cfg_violations("generated:" + dyn["mod"], dyn["cfg"])
+        for k in ("functions", "functions_with_handlers", "blocks", "blocks_with_handler"):
+            cfgtot[k] += dyn["cfg"].get(k, 0)
         dyn_static_viol += len(sv)
         violations += sv
-        if dyn["lane"] == "conformance":
-            v, h, stc, smp = conformance_verdicts(dyn)
-        else:
-            v, h, stc, smp = undef_verdicts(dyn)
+        v, h, stc, smp = {"conformance": conformance_verdicts, "undef": undef_verdicts, "ms": ms_verdicts,
+                          "nr": nr_verdicts}[dyn["lane"]](dyn)
         violations += v
         herr += h
         samples += smp[:1]
         traces += stc["traces_validated"]
+        fam[dyn["lane"] + "_executions_compared"] += stc["traces_validated"]
+        fam[dyn["lane"] + "_crashes"] += len(dyn["crashes"])
+        if dyn["lane"] == "ms":
+            fam["ms_result_census_compared"] += stc["census_compared"]
+            fam["ms_result_census_objects"] += stc["census_objects"]
+        if dyn["lane"] == "nr":
+            for k, n in stc.items():
+                if k.startswith("undefined_read_cases") or k.startswith("ref:"):
+                    fam["nr_" + k] += n
         dyn_cov[name] = {"build_ok": dyn["build_ok"], "build_seconds": dyn["build_seconds"], "lib_rt": dyn["lib_rt"],
                          "functions_model_checked_x2": len(dyn["static"]), "measurements": stc["measurements"],
                          "crashes": len(dyn["crashes"]), "predicted_balanced": stc.get("predicted_balanced"),
@@ -502,6 +691,14 @@ def run(ctx: Ctx, only_files: list[str] | None = None, patch: str | None = None,
         und = sum(d.get("undefined_read_cases", 0) for d in dyn_cov.values())
         if und < 50:
             vac.append(f"only {und} undefined-read executions")
+        if fam["ms_ops_stealing_one_value_more_than_once"] < 100:
+            vac.append(f"only {fam['ms_ops_stealing_one_value_more_than_once']} ops stealing one value more than once")
+        if fam["ms_result_census_compared"] < 500:
+            vac.append(f"only {fam['ms_result_census_compared']} result censuses compared")
+        if fam["nr_undefined_read_cases"] < 300:
+            vac.append(f"only {fam['nr_undefined_read_cases']} nested-region executions that CPython ends in UnboundLocalError")
+        if cfgtot["blocks_with_handler"] < 1000:
+            vac.append(f"only {cfgtot['blocks_with_handler']} protected blocks seen by the CFG invariant")
     if vac:
         raise RuntimeError("vacuous exploration: " + "; ".join(vac) + f"; harness errors: {herr[:2]}")
 
@@ -526,13 +723,27 @@ def run(ctx: Ctx, only_files: list[str] | None = None, patch: str | None = None,
         "functions_with_alarm_final": tot["functions_with_alarm_final"],
         "largest_function": biggest,
         "dynamic": dyn_cov, "static_alarms_in_generated_modules": dyn_static_viol,
+        "families": dict(sorted(fam.items())),
+        "multi_steal_family": {
+            "space": "construct x operand shape x provenance of x (x provenance of y in thorough)",
+            "constructs": sorted(list(c06_fam.CONSTRUCTS) + list(c06_fam.STR_ONLY)), "provenances": sorted(c06_fam.PROVENANCE),
+            "stealing_op_kinds_reached(after refcount insertion)": dict(sorted(steal_kinds.items())),
+        },
+        "nested_region_family": {
+            "space": "outer region x inner try x first assignment x reader x pre-statement x local type x raise point",
+            "outer": c06_fam.NR_OUTER, "inner": c06_fam.NR_INNER, "assigned": c06_fam.NR_WHERE, "read": c06_fam.NR_READ,
+            "pre": c06_fam.NR_PRE, "types": sorted(c06_fam.NR_TYPES), "raise_points": c06_fam.NR_INPUTS,
+            "depth3_obj": bool(ctx.thorough),
+        },
+        "cfg_invariant": dict(cfgtot),
         "per_file_cases": {k: dict(v) for k, v in sorted(per_file.items())} if ctx.thorough else
                           {k: v["cases"] for k, v in sorted(per_file.items())},
         "samples": samples[:6],
         "cpu_seconds": round(_cpu() - cpu0, 1),
         "bounds": "every CFG path of every function (states deduplicated on block entry x abstract ownership of "
                   f"live/owned values; per-function cap {MAX_STATES} states, caps counted); dynamic: all k of every "
-                  "conformance function, all (c,n,r,del) inputs of all 32 subsets x {local,attr} x {object,int,i64}",
+                  "conformance function, all (c,n,r,del) inputs of all 32 subsets x {local,attr} x {object,int,i64}; "
+                  "multi-steal and nested-region products complete (k in {0,1}; raise point p in {0,1,2,3})",
     }
     from mc.c06_model import CORRECTIONS
 
